@@ -229,6 +229,12 @@ def check_kinds_lengths(ctx, wm: WeaverModel):
                             mf.fi.loc(), mf.fi.qualname, f"{name}:len")
             else:
                 ok = all(any(a == b for b in ly) for a in lx) and all(any(a == b for a in lx) for b in ly)
+                opaque = [r for r in lx + ly if any(sym.ATOMS.head(t) == 'Len' and isinstance(sym.ATOMS.args(t)[0], Ref) and sym.ATOMS.args(t)[0].term is not None
+                                                    for t in sym.all_atoms(r))]
+                if not ok and opaque and not name.startswith('__init__'):
+                    ctx.unknown('C09.4', f"{name}: extents of x and y", f"an extent is not derivable: {[sym.show(r)[:100] for r in opaque[:2]]}", mf.fi.loc(), mf.fi.qualname,
+                                f"{name}:len")
+                    continue
                 if name.startswith('__init__') and not ok:
                     # the length guard of the constructor makes len(x) == len(y)
                     ok = any(_len_guard(g) for e in mf.stores for g in e.guard)
@@ -409,7 +415,7 @@ def check_restore(ctx, wm: WeaverModel):
     # every mutator returns self
     ctx.rule('C09.6', 'every method that writes a field returns self; no module-level state (no global statements / module attribute stores)')
     for name, mf in wm.methods.items():
-        if mf.stores and not name.startswith('_'):
+        if any(e.data['field'] in SERIES_FIELDS for e in mf.stores) and not name.startswith('_'):
             ctx.check(isinstance(mf.result, Obj) and mf.result.oid == mf.obj.oid, 'C09.6', f"{name} returns self", show(mf.result, 80), mf.fi.loc(),
                       mf.fi.qualname, f"self:{name}")
 
